@@ -151,8 +151,52 @@ def check_one_reference_row(kind, negB, seed=0):
     return f
 
 
+def check_continued(kind, seed=0):
+    """A run continued with starting_epoch > 1 on the same state, with new data of the same shape: every epoch of the
+    continuation uses every row of the NEW data once, with its own basis."""
+    rng = np.random.default_rng(seed)
+    st = C.make_state(kind, 3, 2, 1)
+    bases = np.array([list("ZZZ"), list("XZZ"), list("ZZZ"), list("ZYZ"), list("ZZZ"), list("ZZX")])
+    kw = {} if kind == "positive" else {"input_bases": bases}
+    f = []
+    for run, (se, ep) in enumerate(((1, 1), (2, 3), (4, 4))):
+        data = torch.tensor(rng.integers(0, 2, size=(6, 3)), dtype=torch.double)
+        data[:, 0] = float(run % 2)
+        data[:, 1] = float(run // 2)                 # tag the rows of each run
+        seen = []
+        real = st.compute_batch_gradients
+
+        def spy(k, samples_batch, neg_batch, bases_batch=None, real=real):
+            seen.append((samples_batch.clone(), None if bases_batch is None else np.array(bases_batch)))
+            return real(k, samples_batch, neg_batch, bases_batch=bases_batch) if bases_batch is not None else real(k, samples_batch, neg_batch)
+        st.compute_batch_gradients = spy
+        try:
+            st.fit(data, epochs=ep, pos_batch_size=4, neg_batch_size=2, k=1, lr=0.01, starting_epoch=se, **kw)
+        finally:
+            del st.__dict__["compute_batch_gradients"]
+        want = sorted((tuple(r), "".join(bases[i]) if kw else "") for i, r in enumerate(data.tolist()))
+        per_epoch = 2
+        if len(seen) != per_epoch * (ep - se + 1):
+            f.append("run %d: %d batches for %d epochs" % (run + 1, len(seen), ep - se + 1))
+            continue
+        for e in range(ep - se + 1):
+            got = []
+            for sb, bb in seen[e * per_epoch:(e + 1) * per_epoch]:
+                for j, r in enumerate(sb.tolist()):
+                    got.append((tuple(r), "".join(bb[j]) if bb is not None else ""))
+            if sorted(got) != want:
+                f.append("run %d (starting_epoch=%d), epoch %d: the positive batches are not the rows of this run's data with their bases" % (run + 1, se, se + e))
+                break
+    return f
+
+
 def native_check(quick=True):
     fails, n = [], 0
+    for kind in ("positive", "complex"):
+        f = check_continued(kind)
+        n += 1
+        if f:
+            fails.append(({"kind": kind, "continued runs with new data": True}, f[:2]))
     for kind in ("complex", "mixed"):
         for negB in (3, 2):
             f = check_one_reference_row(kind, negB)
